@@ -436,6 +436,49 @@ def search_c03():
     return None
 
 
+def search_c07():
+    import rsatoolbox
+    from rsatoolbox.util.pooling import pool_rdm
+    from rsatoolbox.rdm.compare import compare
+    rs = np.random.RandomState(13)
+    for rep in range(200):
+        n_rdm, n_cond = rs.randint(2, 6), rs.randint(3, 6)
+        nvec = n_cond * (n_cond - 1) // 2
+        D = rs.randint(1, 40, size=(n_rdm, nvec)) / 4.0
+        D[:, 0] += np.arange(n_rdm)          # no constant RDMs
+        rdms = rsatoolbox.rdm.RDMs(D.copy())
+        inp = dict(dissimilarities=D.tolist())
+        want = dict(euclid=D.mean(0),
+                    cosine=(D / np.sqrt((D ** 2).mean(1, keepdims=True))).mean(0))
+        c = D - D.mean(1, keepdims=True)
+        c = (c / c.std(1, keepdims=True)).mean(0)
+        want['corr'] = c - c.min() + 0.01
+        from rsatoolbox.util.inference_util import pool_rdm as ceil_pool
+        cw = dict(euclid=want['euclid'], neg_riem_dist=want['euclid'], cosine=want['cosine'], cosine_cov=want['cosine'],
+                  corr=want['corr'] - 0.01, corr_cov=want['corr'] - 0.01)
+        for method, w in cw.items():
+            out = np.asarray(ceil_pool(rdms, method=method).get_vectors(), float)
+            if out.shape != (1, nvec) or not np.allclose(out[0], w, atol=1e-10):
+                return _fail('util.inference_util.pool_rdm', dict(inp, method=method), out.tolist(), w.tolist(),
+                             'the pooled RDM is not the (normalised) mean of the data RDMs that maximises the average similarity')
+        for method, w in want.items():
+            out = np.asarray(pool_rdm(rdms, method=method).get_vectors(), float)
+            if out.shape != (1, nvec) or not np.allclose(out[0], w, atol=1e-10):
+                return _fail('util.pooling.pool_rdm', dict(inp, method=method), out.tolist(), w.tolist(),
+                             'the pooled RDM is not the (normalised) mean of the data RDMs that maximises the average similarity')
+            # unbeatable: no data RDM and no random candidate scores above the pooled RDM
+            meth = dict(euclid='neg_riem_dist', cosine='cosine', corr='corr')[method]
+            if method == 'euclid':
+                continue
+            best = float(np.mean(compare(rsatoolbox.rdm.RDMs(out), rdms, method=meth)))
+            for cand in list(D) + [rs.rand(nvec) + 0.1 for _ in range(3)]:
+                val = float(np.mean(compare(rsatoolbox.rdm.RDMs(np.array([cand])), rdms, method=meth)))
+                if val > best + 1e-9:
+                    return _fail('pool_rdm', dict(inp, method=method, candidate=np.asarray(cand).tolist()), val, best,
+                                 'a candidate RDM scores above the pooled RDM (the upper noise ceiling is beatable)')
+    return None
+
+
 def search(pid):
     f = globals().get('search_' + pid.lower())
     r = f() if f else None
